@@ -480,13 +480,13 @@ class Gen:
         return [tag] + self.op_add_node()
 
 
-def gen_history(rng, flavour, nops, vocab, invalid=0.2, avoid=(), stop_on_violation=True, known_ok=None):
+def gen_history(rng, flavour, nops, vocab, invalid=0.2, avoid=(), stop_on_violation=True, known_ok=None, store=None):
     """returns (case, steps): the case and the observations (outcome, drawn ids, snapshot, views per call) of the
     generating run"""
     gen = Gen(rng, flavour, invalid, avoid)
     ops, steps = [], []
     with D.patched_uuid():
-        topo = D.new_topology(flavour)
+        topo = D.new_topology(flavour, store)
         for tag in range(1, nops + 1):
             op = gen.next_op(tag)
             st = D.step(topo, flavour, op, want_views=True)
@@ -498,4 +498,7 @@ def gen_history(rng, flavour, nops, vocab, invalid=0.2, avoid=(), stop_on_violat
                 v = O.rule_violations(st['snap'], vocab)
                 if v:
                     break
-    return {'flavour': flavour, 'ops': ops}, steps
+    case = {'flavour': flavour, 'ops': ops}
+    if store:
+        case['store'] = store
+    return case, steps
